@@ -258,6 +258,36 @@ def run_case(case):
         if sum(runs.values()) > len(distinct):
             fail("a distinct batch element's body ran the wrong number of times",
                  "%s: %d body executions for %d distinct elements" % (label, sum(runs.values()), len(distinct)))
+        # ---- a long batch (several hundred elements) with failing elements near its beginning and in its middle, the first
+        # failure raised: every element is evaluated and memoized all the same, as the individual calls do
+        if case["idx"] % 4 == 0:
+            lp = "L%d_%d" % (case["seed"], case["idx"])
+            n_long = 300 + rng.randrange(40)
+            failing = {rng.randrange(3, 40), rng.randrange(100, 200)}
+            for k in range(n_long):
+                ffuncs.TABLE["%s|%s" % (lp, k)] = ("__raise__", ValueError, ("elem %d failed" % k,)) if k in failing else k * 3
+            env.set_env(sc.path("envL1"), default_storage=env.mem_backend())
+            for k in range(n_long):
+                outcome_of(lambda k=k: ffuncs.pair(lp, k))
+            stateB = store_state(Environment_storage(), ffuncs.pair)
+            for how in ("call_batch", "map_over_range"):
+                env.set_env(sc.path("envL2" + how), default_storage=env.mem_backend())
+                mark = REC.mark()
+                if how == "call_batch":
+                    got = outcome_of(lambda: ffuncs.pair.call_batch([{"prefix": lp, "k": k} for k in range(n_long)]))
+                else:
+                    got = outcome_of(lambda: ffuncs.pair.partial(lp).map_over_range(k=range(n_long)))
+                ran = len([e for e in REC.since(mark) if e[0] == "pair"])
+                stateA = store_state(Environment_storage(), ffuncs.pair)
+                out["obs"]["long_batches"] += 1
+                label = "%s over %d elements, failing %s, first failure raised" % (how, n_long, sorted(failing))
+                if got[0] != "raise" or "elem %d failed" % min(failing) not in str(got[1]):
+                    fail("with raise_first_exception the exception raised is not the first failing slot's", "%s: got %s" % (label, domain.describe(got, 120)))
+                if set(stateA) != set(stateB):
+                    fail("the store after a batch differs from the store after individual calls",
+                         "%s: batch store has %d entries, individual store %d" % (label, len(stateA), len(stateB)))
+                if ran != n_long:
+                    fail("a distinct batch element's body ran the wrong number of times", "%s: %d bodies ran for %d distinct elements" % (label, ran, n_long))
         # ---- a function that takes free-form settings (**opts): elements pass settings the signature does not name; and
         # one element of a batch over a plain signature names a parameter the function does not have (element-wise that
         # call fails with TypeError, which belongs in its slot)
